@@ -55,7 +55,8 @@ package storage
 //@   ensures [step] U2 - U == delta
 //@ lemma SupplyStepOther(U int, U2 int, spent int, mat int, nonmat int, delta int)
 //@   property C17
-//@   requires U2 == U - spent + mat && spent == mat + nonmat && nonmat == 0 -- transfers, claims, node and custodian operations: no submit output (OtherShape), no slash output
+//@   requires U2 == U - spent + mat && spent == mat + nonmat && nonmat == 0 -- transfers, claims, node and custodian operations: no submit output (OtherShape), no slash output;
+//@   -- for the claim class this is PROVED on the validator: common.validateWithdrawalClaim [c17-claim-first] [c17-claim-outputs] (claim output, then script outputs only: all materialised)
 //@   requires delta == 0 -- writeTotalInAsset[other]: nothing written
 //@   ensures [step] U2 - U == delta
 //@ -- the bound that makes a withdrawal submission panic-free follows from the invariant (used by TotalAdmits, C16)
